@@ -56,10 +56,11 @@ func (s *simStore) Load(key uint) ([]byte, error) {
 	if !ok {
 		return nil, nil
 	}
-	if s.alias {
+	if s.alias && v != nil {
 		return v, nil
 	}
-	return append([]byte(nil), v...), nil
+	// a record without content is present all the same (as os.ReadFile returns for an empty file): not nil
+	return append(make([]byte, 0, len(v)), v...), nil
 }
 
 func (s *simStore) Save(key uint, value net.Buffers) error {
